@@ -366,6 +366,32 @@ def process_case(rep, spec, index, tmp):
             bad = compare_process(model, loaded, safe)
             rep.require("process model: save -> load returns the same model", bad is None, case, bad)
             saved.append((target, model, safe))
+            if rng.random() < 0.35:
+                # the user stores the copy just loaded once more under the same membrane - in the pinned library this save
+                # FAILS (a loaded model carries scalar permeate conditions, TypeError) - and, next, a model without initial
+                # conditions with is_safe=True.  Whatever the outcome: nothing saved earlier may change
+                import copy
+
+                attempts = [("re-save of a loaded model", lambda: loaded.save(membrane_path=membrane_dir, is_safe=safe))]
+                bare = copy.copy(model)
+                bare.initial_conditions = None
+                attempts.append(("safe save without initial conditions", lambda: bare.save(membrane_path=membrane_dir, is_safe=True)))
+                for what, attempt in attempts:
+                    before2 = {p: tree_hash(p) for p in (membrane_dir / "results").glob("process_*")}
+                    _audit["log"] = log2 = []
+                    try:
+                        attempt()
+                        outcome2 = "saved"
+                    except Exception as e:
+                        outcome2 = type(e).__name__
+                    finally:
+                        _audit["log"] = None
+                    rep.count(f"{what}: {outcome2}")
+                    gone = [str(p) for p in before2 if not p.exists()]
+                    unchanged2 = all(p.exists() and tree_hash(p) == h for p, h in before2.items())
+                    inside2 = [e for e in log2 if any(str(e[1]).startswith(str(p) + os.sep) or (str(e[1]) == str(p) and e[0] != "os.mkdir") for p in before2)]
+                    rep.require("a failing (or repeated) save never alters a previously saved process directory", unchanged2 and not inside2,
+                                dict(case, attempt=what), {"outcome": outcome2, "directories_gone": gone[:4], "events_inside_older_directories": inside2[:6]})
     finally:
         pmod.datetime = orig_dt
 
